@@ -1435,6 +1435,44 @@ pub(crate) fn broadcast_event(tx: &broadcast::Sender<P2PEvent>, event: P2PEvent)
     }
 }
 
+/// Verification hooks: public access to the crate-private wire framing (feature `verif-hooks`).
+#[cfg(feature = "verif-hooks")]
+pub mod verif {
+    use super::{P2PEvent, RequestResponseEnvelope, WireMessage};
+
+    /// The receive path's frame parser (timestamp window, source attribution).
+    pub fn parse_protocol_message(bytes: &[u8], source: &str) -> Option<P2PEvent> {
+        super::parse_protocol_message(bytes, source)
+    }
+
+    /// Build a frame exactly as `TransportHandle::send_message` does.
+    pub fn encode_wire_message(protocol: &str, data: Vec<u8>, from: &str, timestamp: u64) -> Vec<u8> {
+        postcard::to_stdvec(&WireMessage {
+            protocol: protocol.to_string(),
+            data,
+            from: from.to_string(),
+            timestamp,
+        })
+        .unwrap_or_default()
+    }
+
+    /// Split a frame into (protocol, data, claimed sender, timestamp).
+    pub fn decode_wire_message(bytes: &[u8]) -> Option<(String, Vec<u8>, String, u64)> {
+        let m: WireMessage = postcard::from_bytes(bytes).ok()?;
+        Some((m.protocol, m.data, m.from, m.timestamp))
+    }
+
+    /// Build a request/response envelope.
+    pub fn encode_rr_envelope(message_id: &str, is_response: bool, payload: Vec<u8>) -> Vec<u8> {
+        postcard::to_stdvec(&RequestResponseEnvelope {
+            message_id: message_id.to_string(),
+            is_response,
+            payload,
+        })
+        .unwrap_or_default()
+    }
+}
+
 pub(crate) fn parse_protocol_message(bytes: &[u8], source: &str) -> Option<P2PEvent> {
     let message: WireMessage = postcard::from_bytes(bytes).ok()?;
 
